@@ -20,6 +20,8 @@ def run(tier, seed):
         cases.append(Case('raw_%d' % n, 'crypto', 'zzC01_raw', [n]))
     for w in range(8):
         cases.append(Case('other_%d' % w, 'crypto', 'zzC01_other', [w]))
+    # a caller-supplied hasher with arbitrary 128-byte outputs, consecutive calls (no state carried between calls)
+    cases.append(Case('arbhasher', 'crypto', 'zzC01_arbhasher', [], opts={'h2c_fork': True}))
     for extra in (-48, -1, 0, 1, 2, 48, 152):
         cases.append(Case('appended_%d' % extra, 'crypto', 'zzC01_appended', [extra & ((1 << 64) - 1)]))
     # signature parsing inside verification is the real E1_read_bytes: its canonical-decoding obligation
@@ -28,6 +30,7 @@ def run(tier, seed):
     return run_check('C01', cases, tier, seed, setup=SETUP, functions=FUNCS, timeout_ms=240000,
         bounds={'keys': 'private key = one symbolic generator in [1, r-1]', 'messages': 'lengths %s, contents symbolic (hashing is an uninterpreted stream function)' % ('0,1,3,17,200' if thorough else '0,3'),
                 'candidates': 'a*H(m) + b*g1 (+ a point with a component outside G1) with a, b symbolic in Z_r (every point of E1 has this form); raw symbolic strings of lengths %s' % ('0..200' if thorough else '0,1,47,48,49,96,200'),
+                'hashers': 'the KMAC128-based hashers (stream model) and a caller-supplied hasher with arbitrary 128-byte outputs whose 64-byte halves are below p: Sign then two Verify calls, the verdict of each call depends on that call\'s hasher output only',
                 'outside': 'BLST curve / pairing / SSWU internals (contracts), cryptographic hardness'},
         assumptions=ASSUME, trusted=galg.TRUSTED + stubs_hash.TRUSTED,
         explanation='bounded symbolic execution of Sign/Verify through cgo into the LLVM IR of bls_core.c and bls12381_utils.c with the algebraic group model at the BLST boundary; verdicts become polynomial congruences that z3 decides')
